@@ -238,8 +238,10 @@ class C15:
         if not r.clean:
             return "die/%s" % r.death(), "roundtrip died: %s\n%s" % (r.death(), r.stderr.decode("latin-1")[:1200])
         printed = bytes.fromhex(t[irt]["text"]).decode("latin-1")
-        if t[irt]["rc"] != 0 and odd_names(dump_to_plain(t[id1]["tree"])):
-            return None       # a free-form key that is not identifier-like has no printable form (outside the domain, see C05)
+        if odd_names(dump_to_plain(t[id1]["tree"])):
+            # a free-form key that is not identifier-like has no printable form (outside the domain, see C05): the printed
+            # text may be rejected, or - a key such as '#nocomment' - silently read back as something else
+            return None
         if t[irt]["rc"] != 0:
             if "*/" in val:
                 return "annotation-print-unparsable/comment-terminator-in-annotation", "annotation %r printed as %r does not parse" % (val, printed)
